@@ -90,3 +90,18 @@ Theorem C02_double_layer_potential_kernel_is_normal_derivative :
             (laplace_double_layer_regular_re x0 x1 x2 y0 y1 y2 nx0 nx1 nx2 ny0 ny1 ny2 p0 p1).
 Proof. exact laplace_dl_is_normal_derivative. Qed.
 Print Assumptions C02_double_layer_potential_kernel_is_normal_derivative.
+
+(* make_localised_space: the space on which the potential kernels run inherits normal multipliers, shapeset and
+   support from the user's space (multipliers 1 on the support), so the library's evaluation (coefficients mapped with
+   the space, kernel run on its localised space) is the potential model of the space itself.  The correspondence
+   compares the implementation's localised space with [localised_space] field by field. *)
+Theorem C02_localised_space_inherits :
+  forall (A : Type) (RO : ops A)
+         (g : geom) (s : space) (quad : list qpt) (kern : kernel) (supp : list nat) (c : nat -> A) (pt : vec3 A),
+  (forall e, s_nmult (localised_space RO s supp) e = s_nmult s e) /\
+  (forall i u v, s_shape (localised_space RO s supp) i u v = s_shape s i u v) /\
+  s_nshape (localised_space RO s supp) = s_nshape s /\
+  (forall e i, In e supp -> s_mult (localised_space RO s supp) e i = o1 RO) /\
+  potential_eval_impl RO g s quad kern supp c pt = potential_eval RO g s quad kern supp c pt.
+Proof. exact @localised_space_inherits. Qed.
+Print Assumptions C02_localised_space_inherits.
